@@ -243,6 +243,14 @@ def pmap(fn, items, procs=None, chunksize=1, crash_value=([], 0), split=None):
     return results
 
 
+def require_ops(behaviours, names, what="operation"):
+    """vacuity guard for runs without TLC coverage statistics: every listed operation occurs in some emitted behaviour"""
+    seen = {st["op"] for h in behaviours for st in h}
+    missing = sorted(set(names) - seen)
+    if missing:
+        raise RuntimeError("vacuity: %s never exercised: %s" % (what, missing))
+
+
 def shards(items, n):
     items = list(items)
     out = [items[i::n] for i in range(n)]
